@@ -103,6 +103,16 @@ Definition resolve_fully (f : fs) (base : path) (rel : list str) : rfull :=
       end
   end.
 
+(* utils/url.py canonical_path_segments(clamp=False) on the split path: None = climbs above the root *)
+Fixpoint canon_strict (cs : list str) (acc : list str) : option (list str) :=
+  match cs with
+  | [] => Some acc
+  | n :: r =>
+      if match n with [] => true | _ => false end || eqb n dot then canon_strict r acc
+      else if eqb n dotdot then match acc with [] => None | _ => canon_strict r (removelast acc) end
+      else canon_strict r (acc ++ [n])
+  end.
+
 (* children of a directory (direct entries) *)
 Definition children (f : fs) (d : path) : list (str * node) :=
   flat_map (fun e => let '(q, n) := e in
